@@ -176,6 +176,58 @@ theorem C12_fresh_gauge (s : State) (now endT : Int) (id acc : String) (coins : 
       = some { id := id, startT := now, endT := endT, coins := coins, account := acc } := by
   unfold newGauge'; simp [hg]
 
+/-- how the chain names a gauge: a function of the block height, the end and the coins of the
+deposit (`sha256("height--end--coins")`), assumed collision-free -/
+structure IdScheme where
+  idf : Int → Int → Coins → String
+  inj : ∀ h e c h' e' c', idf h e c = idf h' e' c' → h = h' ∧ e = e' ∧ c = c'
+
+/-- every gauge sits under the id of a deposit made at some height until the gauge's own end, and
+starts at that height's block time -/
+def IdInv (I : IdScheme) (timeOf : Int → Int) (s : State) : Prop :=
+  ∀ k g, AMap.get s.gauges k = some g → ∃ h c, k = I.idf h g.endT c ∧ g.startT = timeOf h
+
+/-- **A deposit never moves the interval of a gauge.**  Under any collision-free naming of gauges by
+(height, end, coins) — what `NewGauge` assumes of SHA-256; the assumption is a hypothesis here, not
+proved — a deposit leaves the start and the end of *every* existing gauge as they were, the one it
+merges into included (same id ⇒ same height ⇒ same block time, and same end), and the naming
+invariant is kept.  So what was deposited for a gauge is streamed over its own duration whatever is
+deposited later.  (A naming that forgets the end — the seeded change C12e — is not collision-free
+in this sense: two same-block purchases of equal price and different terms then share an id, and
+the later one overwrites the earlier one's end.) -/
+theorem C12_deposit_keeps_every_interval (I : IdScheme) (timeOf : Int → Int) (s : State)
+    (hinv : IdInv I timeOf s) (h e : Int) (c : Coins) (acc : String) :
+    IdInv I timeOf (newGauge' s (timeOf h) (I.idf h e c) acc c e) ∧
+    ∀ k g, AMap.get s.gauges k = some g →
+      ∃ g', AMap.get (newGauge' s (timeOf h) (I.idf h e c) acc c e).gauges k = some g' ∧
+        g'.startT = g.startT ∧ g'.endT = g.endT := by
+  constructor
+  · intro k g hk
+    unfold newGauge' at hk
+    by_cases hkid : k = I.idf h e c
+    · subst hkid
+      simp only [AMap.get_set_self, Option.some.injEq] at hk
+      subst hk
+      exact ⟨h, c, rfl, rfl⟩
+    · rw [AMap.get_set_other _ _ _ _ (fun e' => hkid e'.symm)] at hk
+      exact hinv k g hk
+  · intro k g hk
+    unfold newGauge'
+    by_cases hkid : k = I.idf h e c
+    · subst hkid
+      obtain ⟨h0, c0, hid, hst⟩ := hinv _ g hk
+      obtain ⟨hh, he, _⟩ := I.inj _ _ _ _ _ _ hid
+      refine ⟨_, AMap.get_set_self _ _ _, ?_, ?_⟩
+      · simp only; rw [hst, hh]
+      · simp only; exact he
+    · rw [AMap.get_set_other _ _ _ _ (fun e' => hkid e'.symm)]
+      exact ⟨g, hk, rfl, rfl⟩
+
+/-- the naming invariant holds where there are no gauges (genesis) -/
+theorem C12_idInv_init (I : IdScheme) (timeOf : Int → Int) (s : State) (h : s.gauges = []) :
+    IdInv I timeOf s := by
+  intro k g hk; rw [h] at hk; simp [AMap.get] at hk
+
 /-- PRE-FIX `NewGauge`: the record of an existing id is overwritten with the new coins while the
 escrow account keeps the coins of both deposits. -/
 def newGaugeUnfixed (s : State) (now : Int) (id acc : String) (coins : Coins) (endT : Int) : State :=
